@@ -115,7 +115,7 @@ namespace
             std::deque<uint8_t> m;
             size_t capacity = size - 1;
             bool wrapped = false, was_full = false, was_empty_after_data = false;
-            uint64_t seqno = 0;
+            uint64_t seqno = 0, stmt_tick = 0;
             auto check = [&](const char *where) {
                 if (r.head >= size || r.tail >= size) violate("C03/index-range", "%s: head=%u tail=%u size=%u", where, r.head, r.tail, size);
                 if (ring_avail(&r) != m.size()) violate("C03/avail", "%s: ring_avail=%u model=%zu", where, ring_avail(&r), m.size());
@@ -139,6 +139,27 @@ namespace
                     if (nw != (int)m.size()) violate("C03/for-each", "%s: compiled as C, ring_for_each yields %d elements, model %zu", where, nw, m.size());
                     for (size_t q = 0; q < m.size(); q++)
                         if (w[q] != m[q]) violate("C03/content", "%s: compiled as C, element %zu of the walk is %02x, model %02x", where, q, w[q], m[q]);
+                }
+                {
+                    // ring_for_each as a statement (if / else without braces, break, continue), in both languages
+                    stmt_tick++;
+                    int cond = (int)(stmt_tick % 3 != 0);
+                    int stop_at = m.empty() || stmt_tick % 4 == 0 ? -1 : (int)((stmt_tick / 4) % m.size());
+                    int skip_at = m.empty() || stmt_tick % 5 < 2 ? -1 : (int)((stmt_tick / 5) % m.size());
+                    std::vector<unsigned char> got(m.size() + 2), want;
+                    int else_ran = -1;
+                    int ng = stmt_tick % 2 ? c03_walk_stmt_inline(&r, buf, cond, stop_at, skip_at, got.data(), (int)m.size() + 1, &else_ran)
+                                           : c03_c_walk_stmt(&r, buf, cond, stop_at, skip_at, got.data(), (int)m.size() + 1, &else_ran);
+                    got.resize((size_t)std::max(ng, 0));
+                    if (cond)
+                        for (size_t q = 0; q < m.size(); q++)
+                        {
+                            if ((int)q == skip_at) continue;
+                            want.push_back(m[q]);
+                            if ((int)q == stop_at) break;
+                        }
+                    if (else_ran != !cond || got != want)
+                        violate("C03/for-each", "%s: ring_for_each as the if-branch of 'if (%d) ... else ...' with break at element %d and continue at element %d: visited %zu elements (expected %zu), else branch ran: %d", where, cond, stop_at, skip_at, got.size(), want.size(), else_ran);
                 }
                 if (m.size() == capacity) { was_full = true; }
                 if (m.empty() && seqno > 0) was_empty_after_data = true;
